@@ -14,6 +14,11 @@
 // has a cell of its own, written at every leaf (Set, SetWithBuffer, Reset, the owner's
 // direct writes) while the others read the templates; a private value must be, through
 // every pointer, what its goroutine left there.
+// Fifth population (flows.go): information flow from shared to private values BY REFERENCE - what
+// Get returned on a shared value (text, containers, pointers) is handed to Set on a private value
+// of the same or of another type, which its goroutine then keeps writing (Set, SetWithBuffer,
+// CopyTo into it with its own buffer, Reset, appends where the memory is its own) while the
+// others read the shared values: a text leaf is replaced, never rewritten where it lies.
 // RACERUN_TRACE=1 prints every goroutine's calls and results (the run alone).
 //
 //	racerun <seed> <goroutines> <ops-per-goroutine>
@@ -84,9 +89,10 @@ func work(seed int64, gid, nops int, written func()) ([]string, []string) {
 	ds := &derivedState{}
 	sc := newScratch(gid)
 	lv := &leavesState{}
+	fl := &flowState{}
 	for k := 0; k < nops; k++ {
 		var res string
-		switch r.Intn(27) {
+		switch r.Intn(30) {
 		case 0, 1, 2:
 			v, err := objIns.Get(shared, getPaths[r.Intn(len(getPaths))]...)
 			res = "get " + emit.DumpDeref(reflect.ValueOf(v)) + " " + fmt.Sprint(err)
@@ -163,6 +169,9 @@ func work(seed int64, gid, nops int, written func()) ([]string, []string) {
 		case 23, 24, 25, 26:
 			// every leaf of private values copied from templates of every shipped type (leaves.go)
 			res = lv.step(r)
+		case 27, 28, 29:
+			// what Get returned on a shared value, handed to Set on a private one (flows.go)
+			res = fl.step(r)
 		default:
 			// read operations on shared values with the goroutine's reused scratch state (scratch.go)
 			res = sc.step(r)
@@ -170,8 +179,8 @@ func work(seed int64, gid, nops int, written func()) ([]string, []string) {
 		out = append(out, res)
 	}
 	written()
-	out = append(out, ds.final(), sc.final(), lv.final())
-	return out, append(append(ds.bad, sc.bad...), lv.bad...)
+	out = append(out, ds.final(), sc.final(), lv.final(), fl.final())
+	return out, append(append(append(ds.bad, sc.bad...), lv.bad...), fl.bad...)
 }
 
 func main() {
@@ -179,6 +188,7 @@ func main() {
 	g, _ := strconv.Atoi(os.Args[2])
 	nops, _ := strconv.Atoi(os.Args[3])
 	registerShared()
+	indexShared()
 	conc := make([][]string, g)
 	bad := make([][]string, g)
 	var wg, writers sync.WaitGroup
@@ -228,7 +238,7 @@ func main() {
 	if first == "" && len(changed) > 0 {
 		first = changed[0]
 	}
-	fmt.Printf("calls=%d mismatches=%d not-as-stored=%d shared-values-changed=%d %s\n", g*(nops+3), mism, foreign, len(changed), first)
+	fmt.Printf("calls=%d mismatches=%d not-as-stored=%d shared-values-changed=%d %s\n", g*(nops+4), mism, foreign, len(changed), first)
 	if mism > 0 || foreign > 0 || len(changed) > 0 {
 		os.Exit(3)
 	}
